@@ -552,6 +552,18 @@ fn numeric<E: Elem + cgmath::BaseNum>(d: &mut Draw) -> Outcome {
         ensure!(q[i] == want[i], "quaternion-index", "Quaternion[{}] = {:?}", i, q[i]);
     }
     ensure!(&q[..] == &want[..] && &q[1..3] == &want[1..3] && &q[..2] == &want[..2] && &q[2..] == &want[2..], "quaternion-index-range", "Quaternion range indexing");
+    // every in-range range form, the empty ones at either end included ([4..], [..0], [a..a]), read and write path: what
+    // the [E; 4] view gives, and never a panic
+    for a in 0..=4usize {
+        let (w1, wa) = (want.clone(), q);
+        ensure!(catches(move || wa[a..].to_vec() == w1[a..].to_vec() && wa[..a].to_vec() == w1[..a].to_vec()).ok() == Some(true), "quaternion-range-in-range", "Quaternion[{}..] / [..{}] panics or differs from the array view", a, a);
+        let (w1, mut wa) = (want.clone(), q);
+        ensure!(catches(move || (&mut wa[a..]).to_vec() == w1[a..].to_vec() && (&mut wa[..a]).to_vec() == w1[..a].to_vec()).ok() == Some(true), "quaternion-range-mut-in-range", "&mut Quaternion[{}..] / [..{}] panics or differs from the array view", a, a);
+        for b in a..=4usize {
+            let (w1, mut wa) = (want.clone(), q);
+            ensure!(catches(move || wa[a..b].to_vec() == w1[a..b].to_vec() && (&mut wa[a..b]).to_vec() == w1[a..b].to_vec()).ok() == Some(true), "quaternion-range-in-range", "Quaternion[{}..{}] panics or differs from the array view", a, b);
+        }
+    }
     ensure!(panics(|| q[4]), "index-out-of-range-accepted", "Quaternion[4] did not panic");
     ensure!(panics(|| q[..5].len()), "range-out-of-range-accepted", "Quaternion[..5] did not panic");
     // the write path has bounds of its own
